@@ -1472,3 +1472,52 @@ package stats
 //@   ensures [weighted]   len(s.Xs) > 0 && !isnil(s.Weights) && fsum(s.Weights, len(s.Xs)) > 0 ==> result == exp(wlsum(s.Xs, s.Weights, len(s.Xs)) / fsum(s.Weights, len(s.Xs)))
 //@   loop 1 (i) invariant wsum == fsum(s.Weights, i) && wsum >= 0 && m * wsum == wlsum(s.Xs, s.Weights, i)
 //@   assigns nothing
+
+// ---------------------------------------------------------------------
+// Further functions of the properties' call graphs brought under contract.
+
+// C05/C12: the vectorised normal density equals the scalar formula at every point
+// (both the standard-normal fast path and the general branch).
+//@ func NormalDist.pdfEach
+//@   model real
+//@   requires n.Sigma != 0
+//@   ensures [len]   len(result) == len(xs) && fresh(result)
+//@   ensures [each]  forall i in 0..len(xs) :: result[i] == exp(-(xs[i] - n.Mu) * (xs[i] - n.Mu) / (2 * n.Sigma * n.Sigma)) * invSqrt2Pi / n.Sigma
+//@   loop 1 (i) invariant len(res) == len(xs) && fresh(res) && n.Mu == 0 && n.Sigma == 1 && (forall j in 0..i :: res[j] == exp(-(xs[j] - n.Mu) * (xs[j] - n.Mu) / (2 * n.Sigma * n.Sigma)) * invSqrt2Pi / n.Sigma)
+//@   loop 2 (i) invariant len(res) == len(xs) && fresh(res) && a == -1 / (2 * n.Sigma * n.Sigma) && b == invSqrt2Pi / n.Sigma && (forall j in 0..i :: res[j] == exp(-(xs[j] - n.Mu) * (xs[j] - n.Mu) / (2 * n.Sigma * n.Sigma)) * invSqrt2Pi / n.Sigma)
+//@   assigns nothing
+
+// C05: the Student-t density formula.
+//@ func TDist.PDF
+//@   model real
+//@   requires t.V > 0
+//@   ensures [def] result == exp(lgamma((t.V + 1) / 2) - lgamma(t.V / 2)) / sqrt(t.V * math.Pi) * pow(1 + (x * x) / t.V, -(t.V + 1) / 2)
+//@   assigns nothing
+
+// C09: the Sample wrappers delegate for unweighted (or empty) samples; the
+// weighted case is an explicit "not implemented" panic and outside the contract.
+//@ func Sample.Variance
+//@   model real
+//@   requires len(s.Xs) == 0 || isnil(s.Weights)
+//@   ensures [def] result == Variance(s.Xs)
+//@   assigns nothing
+//@ func Sample.StdDev
+//@   model real
+//@   requires len(s.Xs) == 0 || isnil(s.Weights)
+//@   ensures [def] result == StdDev(s.Xs)
+//@   assigns nothing
+
+// C14: reading a LogHist.
+//@ func LogHist.Counts
+//@   model real
+//@   results lo, bins, hi
+//@   requires h != nil
+//@   ensures [def] lo == h.low && hi == h.high && same(bins, h.bins) && len(bins) == len(h.bins)
+//@   assigns nothing
+//@ func LogHist.At
+//@   model real
+//@   let L = h.mOverLogb * log(x)
+//@   requires h != nil && x > 0
+//@   ensures [outside] (L < 0 || L >= len(h.bins)) ==> result == 0
+//@   ensures [inside]  0 <= L && L < len(h.bins) ==> result == h.bins[ifloor(L)]
+//@   assigns nothing
